@@ -68,6 +68,7 @@ type Gen struct {
 	Val       int64
 	Hot       []int
 	nObsEpoch int
+	LateLeft  int
 	fill      int
 	drain     bool
 }
@@ -473,6 +474,12 @@ func (g *Gen) Next() *Op {
 				}
 			}
 		}
+	}
+	// now and then one more component type is registered (only while unlocked): typed wrappers created earlier
+	// must keep working with tables created afterwards, also across 64-ID boundaries
+	if g.LateLeft > 0 && g.M.Locks == 0 && g.R.Chance(3) {
+		g.LateLeft--
+		return &Op{K: KRegType, SF: -1, Tuple: -1, E: ZeroE, N: g.M.Late}
 	}
 	for tries := 0; tries < 50; tries++ {
 		k := g.pickKind()
